@@ -112,6 +112,8 @@ def gen_case(rng, nframes, frag=None, mem=None):
         ops.append([5])
         for h in range(min(nread, 3)):
             ops.append([2, h])
+    if rng.random() < 0.2 and len(ops) > 6:
+        ops.insert(rng.randrange(3, len(ops)), [7, leftovers(rng)])
     # the stream's SPS/PPS are not known when the packetizer is built: they arrive as an operation of the history
     # (before the first frame mostly; after some frames, between two key frames, or changing later in some)
     if rng.random() < 0.75:
@@ -279,6 +281,48 @@ def lts_case(rng, mem, shape):
     return [cfg, fs, sched]
 
 
+def leftovers(rng):
+    """files an earlier run under the same path left in the directory: ( number content )"""
+    out = []
+    for _ in range(rng.choice([0, 0, 1, 1, 2, 3])):
+        n = rng.choice([1, 1, 2, 2, 3, 4, 5, 7])
+        size = rng.choice([10, 188, 376, 1000, 3000, 9000])
+        out.append([n, bytes(rng.choice([0x47, 0xff, 0x00, rng.randrange(256)]) for _ in range(size))])
+    return out
+
+
+def generations_case(rng, mem):
+    """several generations of one stream over one storage directory: earlier ones with longer segments, closed or
+    abandoned at any point; leftover files of yet earlier runs; the last generation's segments must be its own"""
+    frag = rng.choice([1, 1, 2])
+    cfg = gen_cfg(rng, frag, mem)
+    ops = []
+    ngen = rng.choice([2, 2, 3])
+    for gi in range(ngen):
+        last = gi == ngen - 1
+        big = (not last) and rng.random() < 0.75
+        fs = lts_frames(rng, frag, rng.randint(2, 6))
+        if big:
+            fs = [[k, p, d, payload(rng, k, True)] for k, p, d, _ in fs]
+        if not last and rng.random() < 0.6:
+            fs = fs[:rng.randint(1, len(fs))]          # abandoned in mid-stream
+        nread = 0
+        est = 0
+        for k, p, d, pay in fs:
+            ops.append([0, k, p, d, pay])
+            est += k == 1
+            r = rng.random()
+            if r < 0.08:
+                ops.append([1, max(0, est - rng.choice([1, 2, 3]))]); nread += 1
+            elif r < 0.12 and nread:
+                ops.append([2, rng.randrange(nread)])
+        if not last:
+            if rng.random() < 0.3:
+                ops.append([5])
+            ops.append([7, leftovers(rng)])
+    return [cfg, rng.choice(["", "g"]), ops]
+
+
 def rollover_case(rng, mem, frag, extra):
     """fetch a reader and a playlist, roll the window over [extra] more times, then read them"""
     cfg = gen_cfg(rng, frag, mem)
@@ -377,6 +421,11 @@ def run(ck):
     ck.stream("fetch-rollover-schedules", lc, "C10_lts_run", "C10_lts", "C10_lts_ok",
               nontrivial=lambda c: any(l[0] == 1 for l in c[2]) and any(l[0] == 2 for l in c[2]),
               sig=lambda c, e, o: "hls-fetch-vs-rollover-" + ("memory" if c[0][2] else "disk"))
+    # 2d. generations: the storage directory outlives the generator and file names repeat from 1
+    gc = [generations_case(rng, False) for _ in range(300 if big else 36)]
+    gc += [generations_case(rng, True) for _ in range(100 if big else 10)]
+    ck.stream("generations", gc, "C10_run", "C10", "C10_ok", nontrivial=lambda c: any(o[0] == 7 for o in c[2]),
+              sig=lambda c, e, o: "hls-generations-" + ("memory" if c[0][2] else "disk"))
     # 3. the float reformulations and "%.3f"
     fl = []
     for nfr in (-1, 0, 1, 2, 5, 10, 600):
@@ -412,7 +461,8 @@ def run(ck):
              "and re-read) and Close; after every operation playlist text + parsed view, resolvable numbers, files on disk and the demultiplexed "
              "(and re-multiplexed, byte-compared) content of each newly listed segment are compared with the extracted model and judged by the "
              "oracle of C10_model_passes; non-trivial = at least 8 frames spanning >= 4 fragments with >= 4 key frames or audio; plus the explicit "
-             "fetch / 1..6 rollovers / read schedule, the float64 and %.3f reformulations on boundary, tie and random values, the D35 witness, "
+             "generations of one stream over one storage directory (earlier ones with longer segments, closed or abandoned anywhere, plus leftover "
+             "files of arbitrary content under the same names); fetch / 1..6 rollovers / read schedule, the float64 and %.3f reformulations on boundary, tie and random values, the D35 witness, "
              "and schedules of one writer and several fetchers (lookup, frames across 1..3 rollovers, copy; fetch of the newest number while the writer "
              "stands at hls.segment.listed; back-to-back; random) replayed on the "
              "real RW lock with the schedule controller: fetch results and the writer-blocked trace judged by the oracle of C10_lts_model_passes",
